@@ -72,3 +72,28 @@ func e1dump(mod, which string, verbose bool) {
 		}
 	}
 }
+
+func e1events(mod, which string) {
+	e := &Env{progs: map[string]*Program{}, models: map[string]*Model{}}
+	m := e.Model(mod)
+	r := RunE1(m)
+	h := r.byKey[which]
+	if h == nil {
+		fmt.Println("no handler")
+		return
+	}
+	for i, o := range h.Outs {
+		if i > 3 {
+			break
+		}
+		fmt.Printf("--- outcome kind=%v loop=%s\n", o.Kind, o.Loop)
+		for j := range o.St.events {
+			ev := &o.St.events[j]
+			t := ""
+			if ev.Table != nil {
+				t = ev.Table.Name
+			}
+			fmt.Printf("  %d %s %s.%s loop=%q row=%d\n", j, ev.Kind, t, ev.Method, ev.Loop, len(ev.Row))
+		}
+	}
+}
